@@ -10,7 +10,7 @@ import vlib
 LEVEL = "proof"
 PROPS = "Image/Props_C04.v"
 COQ_FILES = ["Lib/SortSearch.v", "Image/PathTree.v", "Image/PathTreeProofs.v", "Image/PathMap.v", "Image/Fill.v", "Image/Overlay.v",
-             "Image/ImageCases.v", "Image/ViewEq.v", "Image/Witnesses.v", "Image/FillProofs.v", "Image/Bounded.v",
+             "Image/ImageCases.v", "Image/ViewEq.v", "Image/Witnesses.v", "Image/FillProofs.v", "Image/FoldProofs.v", "Image/Bounded.v",
              "Image/BoundedProofs.v", "Image/Props_C04.v"]
 PT_CORR = "pathtree.Node Insert/Get/GetChildren/Remove/Walk (Go) vs Image.PathTree trie (Coq, vm_compute); oracle: Image.PathMap finite map"
 CORR = ("image.FromV1Image + ChainLayer.FS Stat/Open+Read/ReadDir/fs.WalkDir (Go) vs Image.Fill load/stat/read/readdir/walk_fs "
@@ -28,7 +28,7 @@ META = {
                   "on every run; two further defects (deep whiteout leak, directory replaced by file) were repaired in /repo and their "
                   "witnesses run first as a regression corpus. The positive statement view_eq_overlay_on_D is stated in full "
                   "(ViewEq.view_eq_overlay_on_D_statement); proved of it: view_eq_overlay_on_D_bounded_partial (every image of two "
-                  "small-scope families, inside Coq) and the structural lemmas fill_is_per_chain_layer / fill_step_refines_map / "
+                  "small-scope families, inside Coq) and the structural lemmas view_is_fold_of_fills / fill_never_overwrites / fill_is_per_chain_layer / fill_step_refines_map / "
                   "in_whiteout_dir_characterised / whiteouts_hidden (all images). On every run the model is compared with the real "
                   "code on all generated images (all streams, all configs), the OCI spec is evaluated on the real code's own output for "
                   "every image inside D, and the real pathtree is compared with the trie model and an independent finite-map spec on "
@@ -293,11 +293,26 @@ def run(ctx):
         return
     known = known_replay(ctx, binp, pa)
     pt = pathtree_stream(ctx, binp, 6000 if ctx.tier == "thorough" else 700)
-    n = 8000 if ctx.tier == "thorough" else 330
+    n = 6000 if ctx.tier == "thorough" else 330
     per = 10
     vfile, cases = _run_harness(ctx, binp, "gen", ["-seed", str(ctx.seed), "-n", str(n), "-per", str(per)])
     ctx.log("harness ran %d cases" % len(cases))
     corr_bad, spec_bad, counts = _eval_shards(ctx, "gen", vfile, per)
+    exh = None
+    if ctx.tier == "thorough":
+        # every 2-layer image with <= 2 members per layer over a, b, a/b x {dir, file, whiteout}: 91 x 91
+        evfile, ecases = _run_harness(ctx, binp, "exh", ["-exh", "-per", "40"])
+        ecorr, espec, ecounts = _eval_shards(ctx, "exh", evfile, 40)
+        ctx.log("exhaustive 2x2: %d images, corr_bad=%d spec_bad=%d in_domain=%d" % (len(ecases), len(ecorr), len(espec), ecounts["in_domain"]))
+        exh = {"images": len(ecases), "corr_bad": len(ecorr), "spec_bad": len(espec), "inside_D_weak": ecounts["in_domain"],
+               "inside_D_strict": ecounts["in_strict"],
+               "family": "2 layers x <= 2 members over the names a, b, a/b x {directory, regular file, whiteout}, default config"}
+        if espec or ecorr:
+            # fold into the main verdict (indices continue after the generated cases)
+            off = len(cases)
+            cases = cases + ecases
+            corr_bad = corr_bad + [off + i for i in ecorr]
+            spec_bad = spec_bad + [off + i for i in espec]
     unstable = [i for i, c in enumerate(cases) if c.get("distinct_outcomes", 1) >= 2]
     sens = set(counts["sensitive_indices"])
     # a case whose outcome changes between loads although the model says it cannot: correspondence break
@@ -344,6 +359,7 @@ def run(ctx):
                                "unpack_runs": sum(1 for c in cases if c.get("unpack_ran"))},
         "vm_compute_cases": len(cases),
         "pathtree_stream": pt,
+        "exhaustive_small_scope": exh,
         "oracle_cases_inside_D": counts["in_domain"],
         "known_findings_checked": [k for k, ok in known if ok],
         "oracle_leniencies": [
